@@ -94,9 +94,10 @@ class Ctx:
 
     def fail(self, what, inp, detail=None, known=None):
         """a failure of the property statement itself on the implementation"""
-        if known:
+        if known and any(k["id"] == known for k in self.kf):
             self.known_hits.setdefault(known, {"what": what, "input": inp, "detail": detail})
             return
+        # a class that is not (or no longer) an OPEN entry of KNOWN_FINDINGS.json suppresses nothing
         if len(self.failures) < 50:
             self.failures.append({"what": what, "input": inp, "detail": detail})
 
